@@ -6,7 +6,15 @@ import tensorflow as tf
 from .angle import LorentzVector
 
 
+def _to_float64(x):
+    # tf.cast / tf.where turn a python float into a float32 tensor first
+    if isinstance(x, (int, float)):
+        return tf.constant(x, dtype=tf.float64)
+    return tf.cast(x, tf.float64)
+
+
 def get_p(M, ma, mb):
+    M, ma, mb = _to_float64(M), _to_float64(ma), _to_float64(mb)
     m2 = M * M
     m_p = (ma + mb) ** 2
     m_m = (ma - mb) ** 2
